@@ -448,8 +448,25 @@ func evalObject(node *jparse.ObjectNode, data reflect.Value, env *environment) (
 	nItems := data.Len()
 	results := make(map[string]interface{}, len(keys))
 
-	for key, idx := range keys {
+	// Evaluate the members in the order in which their keys
+	// first appear (pair by pair, item by item) rather than
+	// in Go's random map order: a value expression can bind
+	// a variable that the members after it read.
+	order := make([]string, 0, len(keys))
+	for key := range keys {
+		order = append(order, key)
+	}
+	sort.Slice(order, func(i, j int) bool {
+		a, b := keys[order[i]], keys[order[j]]
+		if a.pair != b.pair {
+			return a.pair < b.pair
+		}
+		return len(a.items) != 0 && len(b.items) != 0 && a.items[0] < b.items[0]
+	})
 
+	for _, key := range order {
+
+		idx := keys[key]
 		items := data
 		if n := len(idx.items); n != 0 && n != nItems {
 			items = reflect.MakeSlice(typeInterfaceSlice, n, n)
